@@ -11,7 +11,7 @@ from collections.abc import Callable
 import logging
 
 from xknx.exceptions import CommunicationError, CouldNotParseKNXIP, IncompleteKNXIPFrame
-from xknx.knxip import HPAI, HostProtocol, KNXIPFrame
+from xknx.knxip import HPAI, HostProtocol, KNXIPFrame, KNXIPHeader
 
 from .ip_transport import KNXIPTransport
 
@@ -97,22 +97,49 @@ class TCPTransport(KNXIPTransport):
             )
             return
         except CouldNotParseKNXIP as couldnotparseknxip:
+            # skip the frame by the length its header announces - if readable
+            frame_length = self._malformed_frame_length(raw)
+            if frame_length is not None and len(raw) < frame_length:
+                # wait for the rest of the frame to skip it as a whole
+                self._buffer = raw
+                return
             knx_logger.debug(
                 "Unsupported KNXIPFrame from %s: %s in %s",
                 self.remote_hpai,
                 couldnotparseknxip.description,
                 raw.hex(),
             )
+            next_frame_part = raw[frame_length:] if frame_length is not None else b""
         else:
             knx_logger.debug(
                 "Received from %s: %s",
                 self.remote_hpai,
                 knxipframe,
             )
-            self.handle_knxipframe(knxipframe, self.remote_hpai)
+            try:
+                self.handle_knxipframe(knxipframe, self.remote_hpai)
+            except CouldNotParseKNXIP as couldnotparseknxip:
+                knx_logger.debug(
+                    "Discarding KNXIPFrame from %s: %s",
+                    self.remote_hpai,
+                    couldnotparseknxip.description,
+                )
         # parse data after current KNX/IP frame
         if next_frame_part:
             self.data_received_callback(next_frame_part)
+
+    @staticmethod
+    def _malformed_frame_length(raw: bytes) -> int | None:
+        """Return the length a malformed frame announces; None if it is not readable."""
+        if (
+            len(raw) >= KNXIPHeader.HEADERLENGTH
+            and raw[0] == KNXIPHeader.HEADERLENGTH
+            and raw[1] == KNXIPHeader.PROTOCOLVERSION
+        ):
+            total_length = raw[4] * 256 + raw[5]
+            if total_length >= KNXIPHeader.HEADERLENGTH:
+                return total_length
+        return None
 
     async def connect(self) -> None:
         """Connect TCP socket."""
